@@ -102,6 +102,24 @@ def run(ctx, rep):
         if not effects:
             rep.ok("R14.1", "post-acknowledgement effects", "none")
 
+    # ---------------- R14.3 -------------------------------------------------------------
+    rep.rule("R14.3", "once the worker has observed that its channel is closed (the store was dropped) it performs no file mutation before quitting")
+    recv_list = list(recvs) + Pw.calls(r"mpsc::Receiver::<T>::(try_recv|recv_timeout)$")
+
+    def stepq(ms, pi, qi, learn):
+        for o, v in norm_learn(learn):
+            if origin_call(o) in recv_list and v in ERRV:
+                ms = True
+        return ms
+    seenq = run_monitor(Pw, False, stepq)
+    late = [n for n in muts if any(Pw.gnode(pi) == n and ms for (pi, ms) in seenq)]
+    for n in late:
+        rep.violation("R14.3", "worker|%s-after-channel-closed" % cpath(gw.term(n)).split("::")[-1], cpath(gw.term(n)),
+                      "after the store was dropped (channel closed) the detached worker still mutates the directory (`%s`): this happens after "
+                      "the directory lock was released, possibly while another instance owns the directory" % cpath(gw.term(n)), where=gw.where(n))
+    if not late:
+        rep.ok("R14.3", "worker quit path", "no file mutation after the channel was found closed", where=gw.where(gw.entry))
+
     # ---------------- R14.2 -------------------------------------------------------------
     for d in drops:
         gd = ctx.graph(d["key"])
